@@ -172,12 +172,30 @@ func c14RunFilterOn(t *rapid.T, set *DialerSet, pool []c14Node, def c14Def, filt
 func TestC14_Filter(t *testing.T) {
 	rapid.Check(t, func(t *rapid.T) {
 		pool := c14GenPool(t, false)
-		def, injected := c14GenDef(t, pool, true)
-		filters, annos := def.c14Filters()
-		cls, key := c14RunFilter(t, pool, def, filters, annos, injected)
-		vkCase("C14.filter", key, func() any {
-			return map[string]any{"pool": fmt.Sprintf("%q", pool), "definition": def.String(), "expect": fmt.Sprintf("%+v", c14Ref(pool, def))}
-		}, cls...)
+		// one DialerSet, 1-3 group definitions evaluated on it one after the other (as
+		// the control plane does); in a third of the cases the definitions share a
+		// condition head of >=5 equal values with differing further alternatives.
+		set := c14NewSet(pool)
+		defer set.Close()
+		var wide *c14Wide
+		if rapid.IntRange(0, 2).Draw(t, "wide") == 0 {
+			wide = c14GenWide(t, pool)
+		}
+		ndefs := rapid.SampledFrom([]int{1, 2, 1, 3}).Draw(t, "ndefs")
+		for k := 0; k < ndefs; k++ {
+			def, injected := c14GenDef(t, pool, true, wide)
+			filters, annos := def.c14Filters()
+			cls, key := c14RunFilterOn(t, set, pool, def, filters, annos, injected)
+			if wide != nil {
+				cls = append(cls, "shared_condition_head")
+			}
+			if k > 0 {
+				cls = append(cls, "later_group_on_same_set")
+			}
+			vkCase("C14.filter", key, func() any {
+				return map[string]any{"pool": fmt.Sprintf("%q", pool), "definition": def.String(), "expect": fmt.Sprintf("%+v", c14Ref(pool, def))}
+			}, cls...)
+		}
 	})
 }
 
@@ -396,23 +414,45 @@ func c14CheckPolicy(t *rapid.T, p c14Pol, value any, groupSize int) []string {
 	}
 	g := NewDialerGroup(c14Option, "g", set.dialers, annos, *got, func(bool, *dialer.NetworkType, bool) {})
 	defer g.Close()
+	in := got.FixedIndex >= 0 && got.FixedIndex < groupSize
+	var outsider *dialer.Dialer
+	if groupSize > 0 {
+		o := c14NewSet([]c14Node{{Name: "outsider"}})
+		defer o.Close()
+		outsider = o.dialers[0]
+	}
 	for _, nt := range []*dialer.NetworkType{
 		{L4Proto: consts.L4ProtoStr_TCP, IpVersion: consts.IpVersionStr_4},
 		{L4Proto: consts.L4ProtoStr_UDP, IpVersion: consts.IpVersionStr_6, UdpHealthDomain: dialer.UdpHealthDomainData},
+		{L4Proto: consts.L4ProtoStr_UDP, IpVersion: consts.IpVersionStr_4, IsDns: true, UdpHealthDomain: dialer.UdpHealthDomainDns},
 	} {
-		d, _, serr := g.Select(nt, false)
-		in := got.FixedIndex >= 0 && got.FixedIndex < groupSize
-		switch {
-		case in && (serr != nil || d != set.dialers[got.FixedIndex]):
-			t.Fatalf("policy %v on a group of %d: Select returned %v, %v; want node %d", p, groupSize, d, serr, got.FixedIndex)
-		case !in && (serr == nil || d != nil):
-			t.Fatalf("policy %v on a group of %d (index out of range): Select returned node %v, err %v; want an error", p, groupSize, d, serr)
+		for _, strict := range []bool{false, true} {
+			excl := []*dialer.Dialer{nil, outsider}
+			for _, m := range set.dialers {
+				excl = append(excl, m)
+			}
+			for _, ex := range excl {
+				d, _, _, serr := g.SelectWithExclusionResult(nt, strict, ex)
+				switch {
+				case in && (serr != nil || d != set.dialers[got.FixedIndex]):
+					t.Fatalf("policy %v on a group of %d (strict=%v, excluded=%v): Select returned %v, %v; want node %d", p, groupSize, strict, ex != nil, d, serr, got.FixedIndex)
+				case !in && (serr == nil || d != nil):
+					name := "<nil>"
+					if d != nil {
+						name = d.Property().Name
+					}
+					t.Fatalf("policy %v on a group of %d members (index out of range, strict=%v, excluded=%v): Select returned node %s, err %v; want an error and no node", p, groupSize, strict, ex != nil, name, serr)
+				}
+			}
+			if d, _, serr := g.Select(nt, strict); in != (serr == nil) || (d != nil) != in {
+				t.Fatalf("policy %v on a group of %d (strict=%v): Select returned %v, %v", p, groupSize, strict, d, serr)
+			}
 		}
-		if in {
-			cls = append(cls, "fixed_in_range")
-		} else {
-			cls = append(cls, "fixed_out_of_range_select_error")
-		}
+	}
+	if in {
+		cls = append(cls, "fixed_in_range")
+	} else {
+		cls = append(cls, "fixed_out_of_range_select_error", fmt.Sprintf("fixed_out_of_range_group_of_%d", groupSize))
 	}
 	return cls
 }
@@ -462,6 +502,12 @@ func TestC14_Text(t *testing.T) {
 	rapid.Check(t, func(t *rapid.T) {
 		pool := c14GenPool(t, true)
 		ng := rapid.SampledFrom([]int{1, 1, 2, 3}).Draw(t, "ngroups")
+		var wide *c14Wide
+		if rapid.IntRange(0, 2).Draw(t, "wide") == 0 {
+			wide = c14GenWide(t, pool)
+		}
+		set := c14NewSet(pool) // all groups of the config select from one DialerSet
+		defer set.Close()
 		var groups []c14TextGroup
 		var text strings.Builder
 		sections := []string{"global", "group", "routing"}
@@ -472,7 +518,7 @@ func TestC14_Text(t *testing.T) {
 		polMustFail := false
 		for gi := 0; gi < ng; gi++ {
 			g := c14TextGroup{Name: rapid.SampledFrom([]string{"g", "my_group", "proxy", "HK"}).Draw(t, "gname") + strconv.Itoa(gi)}
-			g.Def, g.Inject = c14GenDef(t, pool, false)
+			g.Def, g.Inject = c14GenDef(t, pool, false, wide)
 			g.Def.c14MakeRenderable(t)
 			if !g.Def.c14TextRenderable() {
 				t.Fatalf("generator produced a non-renderable definition:\n%s", g.Def)
@@ -568,7 +614,10 @@ func TestC14_Text(t *testing.T) {
 				}
 			}
 			// behaviour of the decoded definition on the pool
-			cls, key := c14RunFilter(t, pool, g.Def, cg.Filter, cg.FilterAnnotation, g.Inject)
+			cls, key := c14RunFilterOn(t, set, pool, g.Def, cg.Filter, cg.FilterAnnotation, g.Inject)
+			if wide != nil {
+				cls = append(cls, "shared_condition_head")
+			}
 			allCls = append(allCls, cls...)
 			if key != "" {
 				ntKey += key + "#"
